@@ -239,6 +239,7 @@ type FuncResult struct {
 	Name       string // short display name
 	Obs        []*Obligation
 	Errs       []string
+	Warns      []string
 	Unknown    map[string]int
 	Used       map[string]bool
 	Abstracted map[string]int
@@ -429,21 +430,25 @@ func (e *Engine) verifyFunc(key string, timeoutS, seed int, allSolvers bool, sol
 	fe.runFunction(fr, fr.entry, fe.paramVals(fr), nil)
 	res.GenMS = time.Since(t0).Milliseconds()
 	if con != nil {
-		// every site a contract is keyed to must exist in the current code (fail closed)
-		for site := range con.Calls {
+		// every site a contract is keyed to must exist in the current code: a clause keyed to a vanished
+		// site fails (closed) as that clause's obligation
+		for _, site := range sortedKeys(con.Calls) {
 			if _, ok := fr.callIdx[site]; !ok {
-				fe.errorf("%s: contract refers to call site %s which does not exist (have %v)", res.Name, site, callKeys(fr))
+				for _, a := range con.Calls[site].Asserts {
+					fe.clauseErr = "call site " + site + " does not exist in the current code"
+					fe.oblige(fr, fmt.Sprintf("call[%s].assert:%s", site, a.Label), a.Props, "true", "false", fn.Pos(), a.Src)
+				}
 			}
 		}
 		for _, g := range con.Ghosts {
 			site := strings.TrimPrefix(g.After, "before:")
 			if site != "return" {
 				if _, ok := fr.callIdx[site]; !ok {
-					fe.errorf("%s: ghost update refers to call site %s which does not exist", res.Name, site)
+					fe.warns = append(fe.warns, fmt.Sprintf("%s: ghost update refers to call site %s which does not exist", res.Name, site))
 				}
 			}
 		}
-		for k := range con.Loops {
+		for k, ls := range con.Loops {
 			found := false
 			for _, li := range fr.loops {
 				if li.ord == k {
@@ -451,11 +456,15 @@ func (e *Engine) verifyFunc(key string, timeoutS, seed int, allSolvers bool, sol
 				}
 			}
 			if !found {
-				fe.errorf("%s: contract refers to loop[%d] which does not exist", res.Name, k)
+				for _, inv := range ls.Invs {
+					fe.clauseErr = fmt.Sprintf("loop[%d] does not exist in the current code", k)
+					fe.oblige(fr, fmt.Sprintf("loop[%d].inv:%s:init", k, inv.Label), inv.Props, "true", "false", fn.Pos(), inv.Src)
+				}
 			}
 		}
 	}
 	res.Errs = append(res.Errs, fe.errs...)
+	res.Warns = append(res.Warns, fe.warns...)
 	res.Unknown = fe.unknown
 	res.Used = fe.used
 	res.Abstracted = fe.abstracted
